@@ -87,11 +87,12 @@ fn token_mirror<const T: usize>(maxtok: usize, kmax: usize, four: bool, lazy: bo
     core::mem::forget(pa);
     core::mem::forget(blk);
 }
-kproof! { fn k02e_token_mirror_greedy_h3() { token_mirror::<8>(3, 2, false, false); } }
-kproof! { fn k02e_token_mirror_lazy_h3() { token_mirror::<8>(3, 2, false, true); } }
-kproof! { fn k02e_token_mirror_greedy_h4() { token_mirror::<8>(3, 2, true, false); } }
-kproof! { fn k02e_token_mirror_lazy_h4() { token_mirror::<8>(3, 2, true, true); } }
-kproof! { fn k02e_token_mirror_lazy_h3_t10() { token_mirror::<10>(4, 3, false, true); } }
+kproof! { fn k02e_token_mirror_greedy_h3() { token_mirror::<6>(2, 1, false, false); } }
+kproof! { fn k02e_token_mirror_lazy_h3() { token_mirror::<6>(2, 1, false, true); } }
+kproof! { fn k02e_token_mirror_greedy_h4() { token_mirror::<6>(2, 1, true, false); } }
+kproof! { fn k02e_token_mirror_lazy_h4() { token_mirror::<6>(2, 1, true, true); } }
+kproof! { fn k02e_token_mirror_lazy_h3_t8() { token_mirror::<8>(3, 2, false, true); } }
+
 
 /// stored block followed by nothing: the dictionary must be driven identically by both sides (the bytes of a
 /// stored block are the context of every later match)
@@ -124,3 +125,54 @@ fn stored_mirror(four: bool) {
 }
 kproof! { fn k02e_stored_mirror_h3() { stored_mirror(false); } }
 kproof! { fn k02e_stored_mirror_h4() { stored_mirror(true); } }
+
+kproof! {
+    /// K04j: predict_block emits the same correction sequence as the reference build for the same text, tokens,
+    /// parameters and candidate lists: walk order, nice-length cut-off, lazy rule, 3-byte distance limit, hop
+    /// counting, length/distance/flag corrections are all part of the stored format
+    fn k04j_predict_block_equiv() {
+        const T: usize = 7;
+        let text: [u8; T] = kani::any();
+        let len: usize = kani::any();
+        kani::assume(len >= 1 && len <= T);
+        let p = any_predictor_params();
+        kani::assume(p.min_len != 0);
+        let m = ModelChain::any(len, 2, 3);
+        let dynamic: bool = kani::any();
+        let (blk, covered) = any_tokens(&text[..len], 3, if dynamic { BlockType::DynamicHuff } else { BlockType::StaticHuff });
+        let last: bool = kani::any();
+        kani::assume(!last || covered == len);
+        // flatten
+        let mut is_ref = [false; 3]; let mut lit = [0u8; 3]; let mut l = [0u32; 3]; let mut d = [0u32; 3];
+        let mut i = 0;
+        while i < 3 {
+            if i < blk.tokens.len() {
+                match blk.tokens[i] {
+                    PreflateToken::Literal(c) => { lit[i] = c; }
+                    PreflateToken::Reference(r) => { kani::assume(!r.get_irregular258()); is_ref[i] = true; l[i] = r.len(); d[i] = r.dist(); }
+                }
+            }
+            i += 1;
+        }
+        let (lazy, gl, ml) = match p.matching_type { crate::preflate_parse_config::MatchingType::Greedy => (0u32, 0u32, 0u32), crate::preflate_parse_config::MatchingType::Lazy { good_length, max_lazy } => (1, good_length as u32, max_lazy as u32) };
+        let (pk, pl) = match p.add_policy {
+            crate::add_policy_estimator::DictionaryAddPolicy::AddAll => (0u32, 0u32), crate::add_policy_estimator::DictionaryAddPolicy::AddFirst(v) => (1, v as u32),
+            crate::add_policy_estimator::DictionaryAddPolicy::AddFirstAndLast(v) => (2, v as u32), crate::add_policy_estimator::DictionaryAddPolicy::AddFirstExcept4kBoundary => (3, 0),
+            crate::add_policy_estimator::DictionaryAddPolicy::AddFirstWith32KBoundary => (4, 0),
+        };
+        let pf: [u32; 19] = [0, if p.strategy == PreflateStrategy::Default { 0 } else { 1 }, p.window_bits, p.nice_length, pk, pl, p.max_token_count as u32,
+            p.zlib_compatible as u32, p.max_dist_3_matches as u32, lazy, gl, ml, p.max_chain, p.min_len, 6, 0, 0, p.very_far_matches_detected as u32, p.matches_to_start_detected as u32];
+        let n = blk.tokens.len();
+        let a = super::verif_export::predict_ops(&text[..len], &pf, &m.dist, &m.cnt, dynamic, &is_ref, &lit, &l, &d, n, last);
+        let b = preflate_ref::token_predictor::verif_export::predict_ops(&text[..len], &pf, &m.dist, &m.cnt, dynamic, &is_ref, &lit, &l, &d, n, last);
+        assert!(a.n == b.n, "predict_block emits a different number of corrections than the reference build (or one of them fails)");
+        let mut i = 0;
+        while i < 24 {
+            if i < a.n && a.n != 999 { assert!(a.kind[i] == b.kind[i] && a.ctx[i] == b.ctx[i] && a.val[i] == b.val[i], "predict_block emits a different correction than the reference build"); }
+            i += 1;
+        }
+        kani::cover!(a.n != 999 && n >= 2 && is_ref[1], "a block with a reference token compared");
+        kani::cover!(a.n == 999, "both builds report Err");
+        core::mem::forget(blk);
+    }
+}
